@@ -16,7 +16,7 @@
    CPython's recursion limit (RecursionError on circuits deeper than about 1000 gates, and on
    cyclic netlists) is a runtime limit outside the model: the model's fuel has no such cap and
    a cyclic netlist gives Err OutOfFuel. *)
-Require Import Cirbo.Model.Base Cirbo.Model.Gate Cirbo.Model.Circuit Cirbo.Model.Cnf.
+Require Import Cirbo.Model.Base Cirbo.Model.Gate Cirbo.Model.Den Cirbo.Model.Circuit Cirbo.Model.Eval Cirbo.Model.Sem Cirbo.Model.Cnf.
 Require Import Cirbo.Generated.Tseytin.
 Open Scope Z_scope.
 
@@ -100,3 +100,40 @@ Definition tseytin (c : circuit) (outs : option (list Z)) : res (list (list Z) *
 
 Definition tseytin_cnf (c : circuit) (outs : option (list Z)) : res (list (list Z)) :=
   do r <- tseytin c outs; Ok (fst r).
+
+(* ---- hypotheses of the exactness theorems, as executable predicates -------------- *)
+
+(* the input list is duplicate-free and lists exactly the INPUT gates *)
+Definition inputs_exactb (c : circuit) : bool :=
+  nodupb (inputs c) && forallb (is_input_gate c) (inputs c)
+  && forallb (fun kg : label * gate =>
+                negb (gtype_beq (gtyp (snd kg)) INPUT) || memb (fst kg) (inputs c)) (gates c).
+
+(* every non-INPUT gate has an operand count its operator accepts *)
+Definition arity_okb (c : circuit) : bool :=
+  forallb (fun kg : label * gate =>
+             gtype_beq (gtyp (snd kg)) INPUT
+             || Den.den_accepts (gtyp (snd kg)) (List.length (gops (snd kg)))) (gates c).
+
+Definition tseytin_wf (c : circuit) : bool := inputs_exactb c && arity_okb c.
+
+(* sigma gives CNF variable i+1 the value the assignment gives the i-th circuit input *)
+Definition agrees_on_inputs (c : circuit) (a : Eval.assignment) (sigma : Z -> bool) : Prop :=
+  forall i l, nth_error (inputs c) i = Some l -> inj (sigma (Z.of_nat i + 1)) = Sem.aval a l.
+
+(* a solver's model [1; -2; 3; ...] as a valuation: v is true iff the literal v occurs *)
+Definition sigma_of_model (m : list Z) (v : Z) : bool := existsb (Z.eqb v) m.
+
+(* cirbo.sat.is_circuit_satisfiable for a solver  solve : cnf -> option model *)
+Definition is_circuit_satisfiable (solve : list (list Z) -> option (list Z)) (c : circuit)
+  : res (option (list Z)) :=
+  do f <- tseytin_cnf c None; Ok (solve f).
+
+(* the input assignment a returned model projects onto: input i gets the value of variable i+1 *)
+Fixpoint assign_from (sigma : Z -> bool) (ls : list label) (k : Z) : Eval.assignment :=
+  match ls with
+  | [] => []
+  | l :: r => (l, inj (sigma k)) :: assign_from sigma r (k + 1)
+  end.
+Definition assignment_of (c : circuit) (sigma : Z -> bool) : Eval.assignment :=
+  assign_from sigma (inputs c) 1.
